@@ -123,15 +123,17 @@ where
             // the struct generated for the header element carries the PascalCase form of its name
             let rust_type = xml_name_to_rust_name(header.rust_type.xml_name().expect("xml_name not found"));
 
+            // on the wire a header block is the element the part refers to, not the part
+            let element_name = header.rust_type.xml_name().expect("xml_name not found");
             if let Some(namespace) = header.in_namespace.as_ref() {
                 let abbreviation = namespace.abbreviation.as_str();
                 writeln!(
                     writer,
                     "#[yaserde(prefix = \"{abbreviation}\", rename = \"{}\")]",
-                    rust_str(part_name)
+                    rust_str(element_name)
                 )?;
             } else {
-                writeln!(writer, "    #[yaserde(rename = \"{}\")]", rust_str(part_name))?;
+                writeln!(writer, "    #[yaserde(rename = \"{}\")]", rust_str(element_name))?;
             }
 
             // todo: we should check if the "mustUnderstand" == 1 to make the field required
